@@ -7,3 +7,9 @@ reg("C05",
     "Every terminal state of the stated choice tree is expanded by the repository's own entry functions and the set of traits that turn into compile_error! is compared with the documented acceptance rules; the <=1-attribute slice is also pushed through real rustc and its diagnostics compared with the in-process prediction. Exhaustive within the alphabet, never sampled.",
     "Bound: one configured field per item (first of two), 3 placements, 2 entry points, all-five slice plus 11 supertrait-closed subsets (quick: subsets on the named-struct/attribute slice only).",
     "DESIGN.md 5/C05")
+
+reg("C04",
+    "bounded exhaustive enumeration of bound(...) option assignments to all priority levels (deviation-bounded over 6 options, full products over 3 options) on the real expander, against the reference resolution rule ref_bounds",
+    "Every assignment within the bound is expanded by the repository's own entry functions (both entry points) and the where-clause of every generated impl is compared, as a set of predicates, with the documented nine-level resolution (helper / per-trait / shared x type / variant / field; one slot per recognised comparison helper attribute at each placement; optional key placement). Exhaustive within the bound, never sampled.",
+    "Bound: probe shapes enum X<T>{A(F1<T>,F2<T>),B(F3<T>)} / struct X<T>(F1<T>,F2<T>) with slots on the type, variant A and field A.0; quick: <=2 non-absent levels over 6 options + full 3-option products for 9 small configurations; thorough: <=3 non-absent levels + more full products. The textual form of default/Type bounds is calibrated on the implementation (semantic adequacy is C03's).",
+    "DESIGN.md 5/C04")
